@@ -88,22 +88,42 @@ def run_case(R, tmp, case, meas):
         fails.append("%s: dump failed at validation point %d (%s) and left a new %d-byte file behind"
                      % (case["fmt"], case["failAt"], pt, len(now)))
     if case["failAt"] and not fails:
-        # the same failing dump with the destination given as a path-like object: whatever the library makes of such a
-        # destination (supporting it is not the claim), the file at that place is what it was
+        # the same failing dump through the other spellings of the call and to destinations with other names: whatever the
+        # library makes of such a destination (supporting a path-like object is not the claim), the file at that place is
+        # what it was.  Names: what callers use for their own write-then-rename idiom and for backups.
         import pathlib
-        before = open(path).read() if os.path.exists(path) else None
-        R.DUMP["inject"] = case["failAt"]
-        try:
-            obj.dump(pathlib.Path(path))
-        except Exception:
-            pass
-        finally:
-            R.DUMP["inject"] = None
-        now2 = open(path).read() if os.path.exists(path) else None
-        if now2 != before:
-            fails.append("%s: dump to a pathlib.Path failed at validation point %d (%s) and %s"
-                         % (case["fmt"], case["failAt"], pt, "left a new file behind" if before is None else
-                            ("deleted the previous file" if now2 is None else "replaced the previous file by %d bytes" % len(now2))))
+        variants = [("a pathlib.Path", path, lambda d: ((pathlib.Path(d),), {})),
+                    ("dump(f=<path>)", path, lambda d: ((), {"f": d}))]
+        for suffix in (".tmp", ".json.tmp", ".bak", ".new", "~", ".lock", ".orig", ".part"):
+            variants.append(("a destination named *%s" % suffix, path + suffix, lambda d: ((d,), {})))
+            variants.append(("a destination named *%s via dump(f=<path>)" % suffix, path + suffix, lambda d: ((), {"f": d})))
+        rel = os.path.relpath(path)
+        if not rel.startswith(".."):
+            variants.append(("a relative path", rel, lambda d: ((d,), {})))
+        for how, dest, mk in variants:
+            if dest != path:
+                if case["disk0"] in ("Old", "OldLinked"):
+                    with open(dest, "w") as fh:
+                        fh.write(old)
+                elif os.path.exists(dest):
+                    os.unlink(dest)
+            before = open(dest).read() if os.path.exists(dest) else None
+            R.DUMP["inject"] = case["failAt"]
+            a, kw = mk(dest)
+            try:
+                obj.dump(*a, **kw)
+            except Exception:
+                pass
+            finally:
+                R.DUMP["inject"] = None
+            now2 = open(dest).read() if os.path.exists(dest) else None
+            if dest != path and os.path.exists(dest):
+                os.unlink(dest)
+            if now2 != before:
+                fails.append("%s: dump to %s failed at validation point %d (%s) and %s"
+                             % (case["fmt"], how, case["failAt"], pt, "left a new file behind" if before is None else
+                                ("deleted the previous file" if now2 is None else "replaced the previous file by %d bytes" % len(now2))))
+                break
     if case["failAt"] and not fails:
         # after the refused dump the same object, now valid again, is written to the same destination
         try:
@@ -259,6 +279,13 @@ def run(ctx):
     if r.violated not in ("FailedDumpLeavesDisk", "NoValidationAfterOpen"):
         raise core.MachineryError("as-shipped order should be refuted by TLC, got %s" % r.violated)
     ctx.notes["asshipped_Dev_OpenBeforeSerialize"] = "TLC counterexample: %s violated" % r.violated
+    # the same protocol for ANY number of validation points: inductive invariant discharged by Apalache (Apa_Dump.tla);
+    # the order as shipped at the pinned commit (ApaDev_Dump.tla) must fail the inductive step
+    from . import apalache
+    apalache.obligations(ctx, [("base: Init => IndInv", "Apa_Dump", "Init0", "IndInv", 0, "NoError"),
+                               ("step: IndInv /\\ Next => IndInv'", "Apa_Dump", "IndInit", "IndInv", 1, "NoError"),
+                               ("IndInv => FailedDumpLeavesDisk /\\ SuccessWrites", "Apa_Dump", "IndInit", "Safety", 0, "NoError"),
+                               ("as shipped (open before nested validation): step refuted", "ApaDev_Dump", "IndInit", "IndInv", 1, "Error")])
     R = _install()
     tmp = tempfile.mkdtemp(prefix="verif-c18-")
     try:
